@@ -82,6 +82,8 @@ type State struct {
 	nowSet   bool
 	locks    map[string]int
 	ndBase   int
+	model    map[string]*big.Int // a model of pc[:modelOK] (feasibility shortcut)
+	modelOK  int
 }
 
 func cloneFrames(fs []*Frame) []*Frame {
